@@ -76,6 +76,20 @@ def none_or_truthy(t):
         're.match', 're.search', 're.fullmatch')
 
 
+def never_none(t):
+    """library values that are never None: the text forms of a fresh UUID
+    (uuid.uuid4().hex, str(uuid.uuid4())), the result of str() / len() /
+    bytes() / int()"""
+    if t[0] == 'attr' and t[2] in ('hex', 'bytes', 'int', 'urn') and \
+            t[1][0] == 'call' and t[1][1][0] == 'ext' and \
+            t[1][1][1].startswith('uuid.uuid'):
+        return True
+    if t[0] == 'op' and t[1] in ('str', 'len', 'bytes', 'int', 'repr',
+                                 'concat', 'format'):
+        return True
+    return False
+
+
 def is_boolean(t):
     """the term can only be True or False"""
     return (t[0] == 'op' and t[1] in BOOLEAN_OPS) or (
@@ -940,7 +954,8 @@ class PathSum(object):
                     return x[1] is y[1]
                 if a[1] == '==':
                     return x[1] == y[1]
-            if is_const(y) and y[1] is None and x[0] in NOT_NONE:
+            if is_const(y) and y[1] is None and (
+                    x[0] in NOT_NONE or never_none(x)):
                 return False
             if a[1] == 'is':
                 for snt, other in ((x, y), (y, x)):
